@@ -55,6 +55,18 @@ def observe(name, data, extra):
                         visit(prefix + [n], depth + 1)
         visit([], 0)
         r, tree, reported = R.export(path)
+        # the same file addressed by a RELATIVE path with a directory component (the bin file of a cue sheet is looked up
+        # next to the sheet, wherever the tool was started)
+        import os
+        here = os.getcwd()
+        try:
+            os.chdir(os.path.dirname(os.path.dirname(path)) or "/")
+            rel = os.path.join(os.path.basename(os.path.dirname(path)), os.path.basename(path))
+            rr = R.ls(rel, "")
+            outs["(relative path) "] = (rr.out, rr.exc_name)
+            outs["(relative path = absolute path) "] = (rr.out == outs[""][0] and rr.exc_name == outs[""][1], None)
+        finally:
+            os.chdir(here)
     return outs, tree, sorted(reported), r.exc_name
 
 
